@@ -381,3 +381,67 @@ PROPS["C06"]["rule"] += (" c06_proxy_refuse: a scripted broker hands the real pr
                          "whose hostname fails the pattern or whose scheme is not wss without the non-TLS permission, no /answer may be posted, no TCP "
                          "connection may reach the decoy and the slot must be returned; an acceptable URL must be answered. Non-trivial = a URL whose "
                          "host passes and scheme fails or vice versa.")
+
+PROPS["C01"] = {
+    "rule": ("c01_transport (tier 1): one model client (real RedialPacketConn + encapsulation + websocketconn + kcp-go + smux configured "
+             "as client/lib configures them, token and ClientID first) against the real snowflake_server.Transport on loopback, through a "
+             "harness TCP forwarder. Generated: payload sizes {0, 1, 1399..1401, 64 Ki, 256 Ki, 1 Mi (thorough: up to 4 Mi)} and random, both "
+             "directions, with generated write chunking; 0-8 carrier faults, each a cut after k upstream and/or downstream bytes (k inside "
+             "the WebSocket handshake / token / ClientID / a length prefix, mid-stream, beyond the end) or after a delay, by TCP reset / clean "
+             "close / freeze (client side dies at once, the server keeps the dead carrier 5-1500 ms: two carriers overlap), with dial delays "
+             "and failed dials before the next carrier. Oracle: every chunk read at either end is compared with the PRNG stream of (session, "
+             "direction) at the current offset (prefix rule: detects missing, duplicated, reordered, foreign bytes at the first wrong byte), "
+             "both directions complete when the last carrier is healthy (stall rule: 40 s without progress, then a solitary re-run with 80 s), "
+             "exactly one accepted connection. Non-trivial = at least one carrier fault and more than 3000 payload bytes."),
+    "assumptions": ["the WebRTC hop, Peers, staleness detection and the proxy copy loop are not in tier 1 (model client speaks WebSocket directly to the server)",
+                    "a missed real-time deadline is never a violation by itself: a stall is re-run alone with a doubled budget"],
+    "units": [U("c01_transport", "ext", "c01", "^TestVerifC01Transport$", (60, 1500), shards=(8, 16), timeout=(400, 3000))],
+}
+META["C01"] = {
+    "level": "Sampled exploration of fault sequences and payloads: byte-exact prefix oracle on both ends of the real server transport with injected carrier faults at generated byte offsets; whole-system runs with real binaries in the thorough tier.",
+    "note": "Tier 1 replaces the client's WebRTC leg by a model client assembled from the same real components (the client's session setup is mirrored, not imported, because it is unexported and tied to pion).",
+    "technique": "property-based testing (rapid): fault-sequence and payload generation with a byte-exact prefix oracle (PRNG streams), stall rule for liveness",
+}
+
+PROPS["C05"] = {
+    "rule": ("c05_sessions: 1-5 (quick) / 1-8 (thorough) concurrent model clients with distinct ClientIDs on one server, each with its own "
+             "PRNG streams, start delay and carrier schedule of 0-4 faults (cuts at generated byte offsets, reset/close/freeze with two "
+             "carriers overlapping, dial delays), a generated client_ip per carrier, plus 0-3 decoy carriers (no token, wrong token, short "
+             "token, truncated ClientID, token+ID then garbage, token+ID then close). Oracle: isolation (every byte read on an accepted "
+             "connection belongs to the stream of the session whose label it announced, at the right offset; every byte a client reads "
+             "belongs to its own downstream stream), continuity (exactly one accepted connection per session whatever the number of "
+             "carriers, both streams complete when the schedule ends healthy; stall rule), decoys are closed by the server and produce no "
+             "connection, and the remote address equals the sanitised client_ip of one of the session's own carriers (exactly the first "
+             "carrier's when only one was used). Non-trivial = >= 2 concurrent sessions with at least one changing carrier."),
+    "assumptions": ["gaps between carriers are far below the one-minute retention (the retention edge is decided by C17 on an explicit clock)"],
+    "units": [U("c05_sessions", "ext", "c05", "^TestVerifC05Sessions$", (40, 800), shards=(8, 16), timeout=(400, 3000))],
+}
+META["C05"] = {
+    "level": "Sampled exploration of concurrent sessions with carrier churn against the real server transport; isolation and continuity are byte-exact oracles on PRNG streams keyed by session.",
+    "note": "Same rig as C01 tier 1; sessions are keyed by ClientID so one listener serves all cases of a process.",
+    "technique": "property-based testing (rapid): concurrent fault-schedule generation, byte-exact isolation oracle, exactly-one-accept invariant",
+}
+
+PROPS["C18"] = {
+    "rule": ("c18_sanitise: client_ip strings from the structured address generator (IPv4, IPv6 in every accepted textual form, with ports, "
+             "brackets, zones), IPv4-mapped, unspecified forms, whitespace, leading zeros, junk, 5 KB strings, one-character mutations; "
+             "oracle: second opinion from netip.ParseAddr - empty unless a bare specified IP literal, otherwise that address with stub port 1. "
+             "Non-trivial = not parseable, or IPv6. c18_ringmap: capacities 0-8, 1-60 Set/Get operations over a 6-id alphabet (incl. the "
+             "all-zero id); model = the last `capacity` Set calls; after every step Get of every id must equal the model and the number of "
+             "remembered ids must not exceed the capacity; production capacity spot-checked. Non-trivial = an id set twice among >= 2 ids and "
+             "more operations than capacity. c18_attribution: 2-6 concurrent sessions with 1-3 carriers each carrying generated client_ip "
+             "values through the real server: the accepted connection's remote address must be the sanitised client_ip of one of that "
+             "session's own carriers (the first one's when a single carrier was used). c18_remoteip: the proxy's address extraction (see C13)."),
+    "assumptions": ["with several carriers before the session is established the arrival order at the server is not observable: any of the session's own carriers' sanitised values is accepted"],
+    "units": [
+        U("c18_sanitise", "inpkg", "server/lib", "^TestVerifC18Sanitise$", (4000, 50000)),
+        U("c18_ringmap", "inpkg", "server/lib", "^TestVerifC18RingMap$", (1500, 20000)),
+        U("c18_attribution", "ext", "c05", "^TestVerifC18Attribution$", (40, 600), shards=(4, 8), timeout=(400, 3000)),
+        U("c18_remoteip", "inpkg", "proxy/lib", "^TestVerifC18RemoteIP$", (1500, 20000), shards=(4, 8)),
+    ],
+}
+META["C18"] = {
+    "level": "Sampled exploration: differential oracle (netip) for the sanitiser, model-based state machine for the bounded map, byte-level rig for attribution across concurrent sessions.",
+    "note": "Attribution with several carriers accepts any of the session's own carriers (server-side arrival order is not observable from outside).",
+    "technique": "property-based testing (rapid): differential oracle, model-based state machine, end-to-end attribution invariant",
+}
